@@ -28,7 +28,7 @@ ATTACKS = [  # (cfg, description, driver mode)
 
 def _tier(tier):
     if tier == "quick":
-        return dict(mc="Registry_crash_quick.cfg", mc_stop=150, sim=("Registry_crash_sim.cfg", 120, 45), chains=16, double=2)
+        return dict(mc="Registry_crash_quick.cfg", mc_stop=150, sim=("Registry_crash_sim.cfg", 160, 45), chains=24, double=2)
     return dict(mc="Registry_crash_thorough.cfg", mc_stop=1500, sim=("Registry_crash_sim.cfg", 4000, 55), chains=800, double=10)
 
 
